@@ -2,7 +2,7 @@
 async iterator (async for, async comprehension), classified by how the iterated generator gets closed.  READ from the source.
 
     bracketed   `async with aclosing(X): async for … in X`  or  `try: async for … in X  finally: await X.aclose()`
-    drain       `[x async for x in E]` — a comprehension whose body cannot suspend or stop early
+    drain       `[x async for x in E]` — a comprehension whose body cannot suspend or stop early — or `async for _ in E: pass`
     bare        any other `async for`
 
 (filters.py is not read: the async variants of the filters iterate *data*, not generators created for a template.)
@@ -120,7 +120,9 @@ def library_sites():
                     consumed.add(id(loop))
         for n in ast.walk(fn):
             if isinstance(n, ast.AsyncFor) and id(n) not in consumed:
-                out.append((mod, qual, what_is_iterated(n.iter), "bare"))
+                # `async for _ in X: pass` cannot suspend or stop early in its body either: a drain, like the comprehension
+                empty = all(isinstance(b, ast.Pass) for b in n.body) and not n.orelse
+                out.append((mod, qual, what_is_iterated(n.iter), "drain" if empty else "bare"))
             if isinstance(n, (ast.ListComp, ast.SetComp, ast.GeneratorExp, ast.DictComp)) and any(g.is_async for g in n.generators):
                 it = drain_comp(n)
                 if it is None:
